@@ -30,6 +30,7 @@ type Scope struct {
 	heapUse map[string]Sort // records heaps read (define analysis)
 	bound  []string
 	qvars  map[string]bool
+	paramsFirst bool // postconditions: parameter names denote entry values, other locals their final content
 }
 
 type specError struct{ msg string }
@@ -201,6 +202,9 @@ func (sc *Scope) Tr(e Expr) (Term, types.Type) {
 			sfail("type assertion on non-interface %s", exprString(x.X))
 		}
 		tt := sc.resolveType(x.T)
+		if isInterface(tt) {
+			return a, tt
+		}
 		return env.unbox(tt, IfVal(a)), tt
 	case ECall:
 		return sc.trCall(x)
@@ -212,6 +216,11 @@ func (sc *Scope) Tr(e Expr) (Term, types.Type) {
 func (sc *Scope) trIdent(name string) (Term, types.Type) {
 	// quantifier-bound variables shadow everything
 	if sc.qvars[name] {
+		if v, ok := sc.vars[name]; ok {
+			return v.T, v.Typ
+		}
+	}
+	if sc.paramsFirst {
 		if v, ok := sc.vars[name]; ok {
 			return v.T, v.Typ
 		}
@@ -816,7 +825,10 @@ func (sc *Scope) trCall(x ECall) (Term, types.Type) {
 	if f, ok := x.Fun.(EField); ok {
 		if id, ok := f.X.(EIdent); ok {
 			if t, err := sc.vc.p.ResolveType(&TypeExpr{Kind: "qual", Pkg: id.Name, Name: f.Name}, sc.pkg); err == nil && len(x.Args) == 1 {
-				a, _ := sc.Tr(x.Args[0])
+				a, ta := sc.Tr(x.Args[0])
+				if ta == tNil {
+					return env.Zero(t), t
+				}
 				return a, t
 			}
 			// pure trusted function used in a spec: pkg.Func(args) -> uninterpreted
